@@ -137,7 +137,12 @@ def count_ops(factory, q, file_level):
     c, cleanup = M.quiet(factory)
     ip = Interposer(c)
     n = [0]
-    ip.hook = lambda name, key: n.__setitem__(0, n[0] + 1)
+    names = []
+
+    def hook(name, key):
+        n[0] += 1
+        names.append(name)
+    ip.hook = hook
     LCACHE.set_cache(ip)
     try:
         if file_level:
@@ -148,7 +153,20 @@ def count_ops(factory, q, file_level):
     finally:
         LCACHE.set_cache(LCACHE.NoCache())
         M.quiet(cleanup)
+    LAST_OPS[:] = names
     return n[0]
+
+
+LAST_OPS = []
+
+
+def write_points(limit=60):
+    """indices (1-based) of the file.write operations of the last counted evaluation: the windows between open-for-write and write"""
+    idx = [i + 1 for i, nm in enumerate(LAST_OPS) if nm == "file.write"]
+    if len(idx) > limit:
+        step = len(idx) / float(limit)
+        idx = [idx[int(i * step)] for i in range(limit)]
+    return idx
 
 
 def judge(col, kind, c, runs, schedule, file_level):
@@ -160,6 +178,8 @@ def judge(col, kind, c, runs, schedule, file_level):
         if d:
             bad = True
             known = K_FILEWINDOW if (file_level and "File" in kind and served_empty_prefix(q, o)) else None
+            if file_level and "StoreCache(FileStore" in kind and not o.ok and "KeyNotFoundStoreException" in str(o.failure):
+                known = K_STOREWINDOW
             col.add(CONTRACT, "Context.evaluate / %s" % kind, known=known, query=q, cache=kind, schedule=schedule, granularity="file open/write" if file_level else "cache operation",
                     problem="an interleaved evaluation returned something else than its stand-alone outcome",
                     differences=[dict(field=a, expected=b, observed=x) for a, b, x in d])
@@ -324,53 +344,79 @@ def thread_scenario(col, kind, factory, qa, qb, k, j, file_level):
         M.quiet(cleanup)
 
 
+def points(n, maxpoints):
+    """at most maxpoints operation indices out of 1..n, evenly spread, both ends included"""
+    if n <= maxpoints:
+        return list(range(1, n + 1))
+    step = (n - 1) / float(maxpoints - 1)
+    return sorted(set(int(round(1 + i * step)) for i in range(maxpoints)))
+
+
+K_STOREWINDOW = ("StoreCache over a FileStore: a reader that meets a metadata file which another evaluation is just writing (FileStore.store_metadata: "
+                 "open(path,'w') has truncated it, json.dump not yet done) treats it as corrupted - FileStore.get_metadata removes the key and raises "
+                 "KeyNotFoundStoreException, which StoreCache._load_metadata / get do not catch: the concurrent evaluation fails with that exception")
+
+
 def bounded(tier, seed):
     t0 = time.time()
     M.setup_vocabulary()
     col = M.Collector()
     F = M.cache_factories()
     standins = []
-    pairs = PAIRS if tier != "quick" else PAIRS[:7]
+    quick = tier == "quick"
+    pairs = PAIRS[:7] if quick else PAIRS
     main = ["MemoryCache", "FileCache", "SQLCache.from_sqlite", "StoreCache(MemoryStore)"]
     for kind, factory in F.items():
         if kind == "NoCache":
             continue
         file_kind = ("File" in kind)
         n0 = col.evaluations
-        for file_level in ((False, True) if file_kind else (False,)):
-            for (qa, qb) in pairs:
-                na = count_ops(factory, qa, file_level)
-                if tier == "quick":
-                    stride = 1 if kind in main else 4
-                    if file_level and kind not in ("FileCache", "StoreCache(FileStore)"):
-                        stride = 5
+        # ---- cache-operation granularity, B atomically inside A
+        for (qa, qb) in pairs:
+            na = count_ops(factory, qa, False)
+            for k in points(na, (10000 if kind in main else 6) if quick else 10000):
+                inline_scenario(col, kind, factory, qa, qb, k, False)
+                col.nontrivial.add((kind, qa, qb, k, False))
+        # ---- file open/write granularity
+        if file_kind:
+            fpairs = pairs[:4] if (quick and kind == "FileCache") else (pairs[:2] if quick else pairs)
+            for (qa, qb) in fpairs:
+                na = count_ops(factory, qa, True)
+                if kind == "FileCache":
+                    mp = 10000
+                elif "StoreCache" in kind:
+                    mp = 20 if quick else 600
                 else:
-                    stride = 1
-                for k in range(1, na + 1, stride):
-                    inline_scenario(col, kind, factory, qa, qb, k, file_level)
-                    col.nontrivial.add((kind, qa, qb, k, file_level))
-                # three evaluations
+                    mp = 10 if quick else 10000
+                for k in sorted(set(points(na, mp)) | set(write_points(30 if quick else 400))):
+                    inline_scenario(col, kind, factory, qa, qb, k, True)
+                    col.nontrivial.add((kind, qa, qb, k, True))
+        # ---- three evaluations
+        if kind == "MemoryCache" or (not quick and kind in main):
+            for (qa, qb) in pairs:
                 qc = THIRD.get(qa)
-                if qc is not None and (tier != "quick" or kind in main[:2]) and not file_level:
-                    nb = count_ops(factory, qb, file_level)
-                    for k in range(1, na + 1, 3 if tier == "quick" else 1):
-                        for j in range(1, nb + 1, 4 if tier == "quick" else 2):
-                            inline_scenario(col, kind, factory, qa, qb, k, file_level, qc=qc, j=j)
-                # two threads, one preemption each
-                if not any(x in kind for x in NOT_THREADABLE) and (tier != "quick" or kind in ("MemoryCache", "FileCache")):
-                    nb = count_ops(factory, qb, file_level)
-                    ks = range(1, na + 1, 3 if tier == "quick" else 1)
-                    js = range(1, nb + 1, 4 if tier == "quick" else 2)
-                    if tier == "quick" and (qa, qb) not in pairs[:3]:
+                if qc is None:
+                    continue
+                na, nb = count_ops(factory, qa, False), count_ops(factory, qb, False)
+                for k in points(na, 8 if quick else 10000):
+                    for j in points(nb, 5 if quick else 20):
+                        inline_scenario(col, kind, factory, qa, qb, k, False, qc=qc, j=j)
+        # ---- two threads, one preemption each
+        if not any(x in kind for x in NOT_THREADABLE) and (kind in ("MemoryCache", "FileCache") or not quick):
+            for (qa, qb) in (pairs[:2] if quick else pairs):
+                for file_level in ((False, True) if (file_kind and "StoreCache" not in kind) else (False,)):
+                    if quick and file_level:
                         continue
-                    for k in ks:
-                        for j in js:
+                    na, nb = count_ops(factory, qa, file_level), count_ops(factory, qb, file_level)
+                    for k in points(na, 8 if quick else 40):
+                        for j in points(nb, 6 if quick else 30):
                             thread_scenario(col, kind, factory, qa, qb, k, j, file_level)
         standins.append(M.standin("%s: interleavings of overlapping evaluations" % kind,
-                                  "%d query pairs; B atomically at every%s cache operation of A%s; 3 evaluations and 2-thread (k, j) schedules with one "
-                                  "preemption each for the main kinds" % (len(pairs), "" if (tier != "quick" or kind in main) else " 4th",
-                                                                        " (+ every file open/write)" if file_kind else ""),
-                                  col.evaluations - n0, tier != "quick"))
+                                  "%d query pairs; B atomically at %s cache operation of A%s%s" % (
+                                      len(pairs), "every" if (not quick or kind in main) else "6 evenly spread",
+                                      " (+ file open/write points)" if file_kind else "",
+                                      "; 3 evaluations; 2-thread (k, j) schedules with one preemption each" if kind in ("MemoryCache", "FileCache") or not quick else ""),
+                                  col.evaluations - n0, not quick))
     return dict(evaluations=col.evaluations, distinct_nontrivial=len(col.nontrivial),
                 rule="the shared cache is wrapped so that a scheduler runs before every cache operation (for file-backed caches also before every open()/write() "
                      "of liquer.cache / liquer.store): B (and C) run to completion inside A at each operation index k; for thread-usable kinds A and B also run "
